@@ -148,7 +148,6 @@ Definition st_enum_value   := mkSite "enumBuilder.addValue" "" XEnumValue "*ext_
 Definition st_service_opts := mkSite "conversionVisitor.visitServiceNode" "" XService "*ext_j5pb.ServiceOptions" "*descriptorpb.ServiceOptions".
 Definition st_method_http  := mkSite "conversionVisitor.visitServiceMethodNode" "" XHttp "*annotations.HttpRule" "*descriptorpb.MethodOptions".
 Definition st_method_opts  := mkSite "conversionVisitor.visitServiceMethodNode" "" XMethod "*ext_j5pb.MethodOptions" "*descriptorpb.MethodOptions".
-Definition st_method_listreq := mkSite "conversionVisitor.visitServiceMethodNode" "" XListRequest "*list_j5pb.ListRequestMessage" "*descriptorpb.MethodOptions".
 
 (* the model's call-site table, in source order (compared with SetExtGen.sites) *)
 Definition model_sites : list site :=
@@ -158,7 +157,7 @@ Definition model_sites : list site :=
     st_bool_rules; st_bool_list; st_bytes_rules; st_date_rules; st_date_list; st_dec_rules; st_dec_list;
     st_float_list; st_float_list; st_int_rules; st_int_list; st_int_list; st_int_list; st_int_list;
     st_key_entity; st_key_list; st_key_val; st_string_rules; st_string_list; st_ts_rules; st_ts_list; st_any; st_any_list;
-    st_setj5ext; st_service_opts; st_method_http; st_method_opts; st_method_listreq ].
+    st_setj5ext; st_service_opts; st_method_http; st_method_opts ].
 
 (* proto.SetExtension(dest, xt, v): xt.ValueOf(v) panics on a value of another Go type,
    and Message.Set panics when xt does not extend dest's message *)
